@@ -57,6 +57,7 @@ class Scenario:
         self.event_token = 0
         self.fatal: str | None = None
         self.resp_range: dict[int, tuple] = {}
+        self.addr_updates: list[tuple[float, list]] = []
         self.tainted: set[int] = set()  # connections that carried an injected unsolicited response
         self.unsolicited: list[dict] = []
 
@@ -422,6 +423,7 @@ class Scenario:
                 ctx.probe("unsolicited_skipped")
         elif kind == "desc_update":
             self.triggers.append((loop.time(), "desc_update"))
+            self.addr_updates.append((loop.time(), [_norm(a) for a in op["addrs"]]))
             try:
                 w.pairing._async_description_update(w.description(op["addrs"], config_num=op.get("c", 1), state_num=op.get("s", 1)))
             except Exception as e:  # noqa: BLE001
@@ -861,11 +863,15 @@ class Scenario:
                 continue
             nxt = at[i + 1] if i + 1 < len(at) else None
             failed = a["outcome"] not in ("ok", "cancelled")
+            if a["outcome"] != "IncorrectPairingIdError":
+                immediate_streak = 0
             if a["outcome"] == "ok":
                 prev_gap = None
+                immediate_streak = 0
                 continue
             if a["outcome"] == "cancelled" or a["outcome"] in auth_stop:
                 prev_gap = None
+                immediate_streak = 0
                 continue
             # failed, retry expected
             closed_after = self._closed_between(a["t1"], (nxt["t0"] if nxt else end))
@@ -878,6 +884,7 @@ class Scenario:
             ctx.obligations += 1
             if closed_after:
                 prev_gap = None
+                immediate_streak = 0
                 continue
             if gap > 60.0 + TOL:
                 ctx.violate("C10.backoff", "gap-exceeds-60s", f"gap {gap:.3f}s after failed attempt #{i + 1} ({a['outcome']})")
@@ -944,6 +951,30 @@ class Scenario:
                     ctx.violate("C10.keeps-trying", "not-reconnected-after-heal",
                                 f"faults stopped at t={self.healed_at:.3f}; at t={end:.3f} the pairing is still not connected "
                                 f"(last attempt: {last and (round(last['t0'], 3), last['outcome'])}, attempts: {len(at)})")
+        # 6: an address-set change clears exclusions: the first attempt that starts after the advertised set
+        # changed and that fails at the connect level (= every address it was willing to dial failed) must
+        # have dialled every advertised address
+        for k, a in enumerate(at):
+            if a["t1"] is None or a["outcome"] not in ("ConnectionError", "TimeoutError"):
+                continue
+            ups = [(idx, t, addrs) for idx, (t, addrs) in enumerate(self.addr_updates) if t <= a["t0"] - 1e-9]
+            if not ups:
+                continue
+            idx, t_upd, addrs = ups[-1]
+            if any(t <= a["t1"] + TOL for (t, _) in self.addr_updates[idx + 1:]):
+                continue  # another update arrived before / while this attempt ran
+            if any(b["t0"] >= t_upd - 1e-9 for b in at[:k]):
+                continue  # not the first attempt after that update
+            new_set = set(addrs)
+            if new_set == {_norm(h) for h in a["hosts"]}:
+                continue  # the advertised set equals what the connection already used: no change
+            ctx.obligations += 1
+            ctx.probe("c10_address_change_checked")
+            missing = new_set - set(a.get("dialled") or [])
+            if missing:
+                ctx.violate("C10.exclusion", "address-change-not-cleared",
+                            f"advertised addresses changed to {sorted(new_set)} at t={t_upd:.3f}; the next attempt (t={a['t0']:.3f}, {a['outcome']}) dialled only "
+                            f"{sorted(set(a.get('dialled') or []))}: {sorted(missing)} stayed excluded")
         # waiting callers
         from aiohomekit.exceptions import AccessoryDisconnectedError
 
